@@ -230,7 +230,21 @@ fn gen_msg(rng: &mut Rng, serial: bool, clean: bool, big_micros: bool, tier: u32
     } as usize;
     let mut mcnt = rng.below(256) as u8;
     let mut gen_bytes = |n: usize, rng: &mut Rng| -> Vec<u8> { (0..n).map(|_| if clean { marker_free_byte(rng) } else { any_byte(rng) }).collect() };
-    let add = gen_bytes(hsize - 4, rng);
+    let mut add = gen_bytes(hsize - 4, rng);
+    // boundary values in the optional header parts (ECU id, session id, timestamp): all zero / all ones
+    {
+        let mut off = 0;
+        for bit in [4u8, 8, 16] {
+            if flags & bit != 0 {
+                match rng.below(6) {
+                    0 => add[off..off + 4].copy_from_slice(&[0, 0, 0, 0]),
+                    1 => add[off..off + 4].copy_from_slice(&[0xff, 0xff, 0xff, 0xff]),
+                    _ => {}
+                }
+                off += 4;
+            }
+        }
+    }
     let payload = gen_bytes(plen, rng);
     if clean {
         // also the length bytes and mcnt must not be 0x01 preceded by a marker prefix: simplest is to avoid 0x01 for them
